@@ -17,7 +17,7 @@
 (* the scratch buffer of a meta section (lines re-joined with "\n") and    *)
 (* the (offset -> line, column) table that maps scratch positions back.    *)
 (***************************************************************************)
-EXTENDS Naturals, Sequences, FiniteSets, TLC
+EXTENDS Naturals, Sequences, FiniteSets, TLC, SequencesExt
 
 CONSTANTS MaxChanges, Faults
 
@@ -34,7 +34,11 @@ Hdrs == {HdrPlain, HdrNamed, HdrTight}
 D1 == <<Tok("var", 3, 0), Tok("x", 1, 1), Tok("expression", 10, 1)>>
 D2 == <<Tok("var", 3, 0), Tok("y", 1, 1), Tok(",", 1, 0), Tok("z", 1, 1), Tok("identifier", 10, 1)>>
 D3 == <<Tok("var", 3, 2), Tok("w", 1, 3), Tok("expression", 10, 2)>>           \* indented, wide gaps
-Metas == {<<>>, <<D1>>, <<D1, D2>>, <<D3, D2>>}
+\* a comment line inside the metavariable section: skipped by the sectioner
+\* (not part of the scratch buffer), but it is a line of the file
+CM == <<Tok("#", 1, 0), Tok("note", 4, 1)>>
+IsCmt(line) == Len(line) > 0 /\ line[1].t = "#"
+Metas == {<<>>, <<D1>>, <<D1, D2>>, <<D3, D2>>, <<CM, D1>>, <<D1, CM, D2>>, <<D1, CM, CM>>}
 
 \* ---- faults: each replaces one line of one change by a faulty line and names
 \* ---- the index of the offending token in it (0 = the end of the line)
@@ -97,21 +101,29 @@ MetaLines(p, f) ==      \* token lines of the meta section of change f.c with th
   IF f.m = 0 THEN m ELSE SubSeq(m, 1, f.m - 1) \o <<FaultLine(f.k)>> \o SubSeq(m, f.m, Len(m))
 MetaScratchOff(ml, j) == IF j = 1 THEN 0 ELSE MetaScratchOff(ml, j - 1) + LineWidth(ml[j - 1]) + 1
 \* position reported for scratch offset off: the table entry with the greatest
-\* offset <= off gives (line, col); the column advances by the distance
+\* offset <= off gives (line, col); the column advances by the distance.
+\* Comment lines are not copied to the scratch buffer; the table maps the
+\* j-th copied line to the file line it came from.
+NonCmtIdx(ml) == {i \in 1..Len(ml) : ~IsCmt(ml[i])}
 IPos(p, f) ==
   LET ml   == MetaLines(p, f)
       base == LinesBefore(p, f.c) + Len(p[f.c].pre)
   IN IF f.m = 0
      THEN \* header errors: programSplitter.errf(startOffset + shift + i): a byte offset in the file
           [line |-> base + 1, col |-> ColOf(FaultLine(f.k), FaultTok(f.k))]
-     ELSE LET off   == MetaScratchOff(ml, f.m) + ColOf(ml[f.m], FaultTok(f.k)) - 1
-              entry == CHOOSE j \in 1..Len(ml) : MetaScratchOff(ml, j) <= off /\ \A i \in 1..Len(ml) : MetaScratchOff(ml, i) <= off => i <= j
-          IN [line |-> base + 1 + entry, col |-> 1 + (off - MetaScratchOff(ml, entry))]
+     ELSE LET keep  == SetToSortSeq(NonCmtIdx(ml), LAMBDA a, b : a < b)       \* file-order indexes of the copied lines
+              sl    == [j \in 1..Len(keep) |-> ml[keep[j]]]                   \* the scratch buffer's lines
+              fj    == CHOOSE j \in 1..Len(keep) : keep[j] = f.m              \* the faulty line in the scratch buffer
+              off   == MetaScratchOff(sl, fj) + ColOf(sl[fj], FaultTok(f.k)) - 1
+              entry == CHOOSE j \in 1..Len(sl) : MetaScratchOff(sl, j) <= off /\ \A i \in 1..Len(sl) : MetaScratchOff(sl, i) <= off => i <= j
+          IN [line |-> base + 1 + keep[entry], col |-> 1 + (off - MetaScratchOff(sl, entry))]
 
 VARIABLES patch, fault
 vars == <<patch, fault>>
-Init == patch \in Patches /\ fault \in FaultsOf(patch)
-Next == UNCHANGED vars
+\* two steps (the patch, then the fault) so that TLC's workers share the enumeration
+NoFault == [c |-> 0, k |-> "none", m |-> 0]
+Init == patch \in Patches /\ fault = NoFault
+Next == fault = NoFault /\ fault' \in FaultsOf(patch) /\ UNCHANGED patch
 Spec == Init /\ [][Next]_vars
-DesignOK == IPos(patch, fault) = OffendingPos(patch, fault)
+DesignOK == fault # NoFault => IPos(patch, fault) = OffendingPos(patch, fault)
 ====
